@@ -131,7 +131,8 @@ Qed.
    outermost machine has no history, every history in which start() and stop() alternate and events are sent while
    the machine is started (enqueue_event at any time), every guard valuation and every backmp11 configuration: every
    occurrence stored while the machine is started is dispatched exactly once, in storage order, as a complete step, at
-   the end of the next process_event or in the next process_event_pool.  The bound on the number of stored events
+   the end of the next process_event or in the next process_event_pool; process_event_pool(1) dispatches exactly the
+   oldest one (its cell stays behind marked and is removed by the next pass: Lm_process_pool1).  The bound on the number of stored events
    (default_fuel) keeps every occurrence far from a whole turn of the 16-bit sequence counter (finding F6). *)
 Theorem C04_mp11_stored_events_exactly_once_in_order : forall cf md l,
   c_be cf = Mp11 -> flat_events md -> core (md_root md) -> m_hist (md_root md) = HNone -> mp11_entry_throw_resets = true ->
@@ -143,7 +144,7 @@ Print Assumptions C04_mp11_stored_events_exactly_once_in_order.
 Example C04_mp11_stored_events_example :
   core (md_root ex_core_md) /\ flat_events ex_core_md /\ m_hist (md_root ex_core_md) = HNone /\ qbracketed false ex_queue_ops_mp11 /\
   2 * count_enq ex_queue_ops_mp11 + depth (md_root ex_core_md) + 3 <= default_fuel /\
-  map (fun st => length (fst st)) (run (Cfg Mp11 false 0 false) ex_core_md ex_queue_ops_mp11) = [0; 2; 0; 0; 4; 0; 1; 2; 0; 2; 0; 6].
+  map (fun st => length (fst st)) (run (Cfg Mp11 false 0 false) ex_core_md ex_queue_ops_mp11) = [0; 2; 0; 0; 4; 0; 1; 2; 0; 2; 0; 0; 6; 6; 0].
 Proof.
   split; [exact ex_core_ok|]. split; [intros [|e]; reflexivity|]. split; [reflexivity|].
   split; [cbn; repeat split; discriminate|]. split; [vm_compute; repeat constructor | vm_compute; reflexivity].
